@@ -108,6 +108,8 @@ pub enum Take {
     Fold,
     /// consume everything through `Iterator::count` (every element is discarded by the iterator's consumer)
     Count,
+    /// `k` calls of `next()`, then one call of `nth(j)` on the same chunk iterator (`<k>+nth:<j>`)
+    NextNth(usize, usize),
 }
 
 fn take_of(s: &str, what: &str, ln: usize) -> Result<Take, String> {
@@ -117,6 +119,8 @@ fn take_of(s: &str, what: &str, ln: usize) -> Result<Take, String> {
         Ok(Take::Count)
     } else if s == "all" {
         Ok(Take::All)
+    } else if let Some((k, j)) = s.split_once("+nth:") {
+        Ok(Take::NextNth(num::<usize>(k, what, ln)?, num::<usize>(j, what, ln)?))
     } else if let Some(k) = s.strip_prefix("nth:") {
         num::<usize>(k, what, ln).map(Take::Nth)
     } else {
